@@ -9,6 +9,7 @@ VIEW View
 INVARIANT ReadsAgree
 PROPERTY HeaderEqualsView
 PROPERTY ViewValue
+PROPERTY AssignTakesValue
 PROPERTY OpOutcome
 PROPERTY RereadEqualsView
 PROPERTY HeaderIffNonEmpty
